@@ -60,6 +60,8 @@ var fnSpecs = []fnSpec{
 	{"level", "BitStorage", "Swap", nil},
 	{"level", "statesCfg", "bits", nil},
 	{"level", "biomesCfg", "bits", nil},
+	{"bot", "", "twosComplement", nil},
+	{"server/auth", "", "twosComplement", nil},
 	{"save/region", "", "In", nil},
 	{"save/region", "", "At", nil},
 	{"save/region", "", "sectorLoc", nil},
@@ -107,6 +109,29 @@ type trans struct {
 	arrs     []string        // indexable receiver fields / slice parameters that are WRITTEN (Coq base name)
 	arrSet   map[string]bool
 	fnVars   map[string]bool // free variables of type Z -> Z
+	slicePar map[string]bool // slice parameters that are read: base function (Z -> Z) + write log
+	aux      []string        // auxiliary top-level definitions (loops) emitted before the function
+	cname    string
+	nloops   int
+	nSliceRes int // results of slice type (returned arrays): not part of the translated result tuple
+	ctype     map[string]string // Coq name -> Coq type (for the binders of auxiliary Fixpoints)
+	declared  map[string]bool   // Go names of boolean variables declared in the function being translated
+}
+
+// typeOfGo gives the Coq type of the Go variable called name (by its suffix for logs, else from go/types)
+func (t *trans) typeOfGo(name string) string {
+	if strings.HasSuffix(name, "_w") {
+		return "list (Z * Z)"
+	}
+	for _, b := range t.bufs {
+		if b == name {
+			return "list (Z * Z)"
+		}
+	}
+	if t.declared[name] {
+		return "bool"
+	}
+	return "Z"
 }
 
 // arrName: the Coq base name of an indexable thing (recv.field or a slice parameter), "" if e is none
@@ -117,8 +142,8 @@ func (t *trans) arrName(e ast.Expr) string {
 			return id.Name + "_" + x.Sel.Name
 		}
 	case *ast.Ident:
-		if _, ok := t.isBuf(x); ok {
-			return ""
+		if t.slicePar[x.Name] {
+			return x.Name
 		}
 	}
 	return ""
@@ -170,6 +195,9 @@ func (t *trans) fresh(name string) string {
 func (t *trans) define(name string) string {
 	c := t.fresh(name)
 	t.scopes[len(t.scopes)-1][name] = c
+	if t.ctype != nil {
+		t.ctype[c] = t.typeOfGo(name)
+	}
 	return c
 }
 
@@ -178,6 +206,9 @@ func (t *trans) assign(n ast.Node, name string) string {
 		if _, ok := t.scopes[i][name]; ok {
 			c := t.fresh(name)
 			t.scopes[i][name] = c
+			if t.ctype != nil {
+				t.ctype[c] = t.typeOfGo(name)
+			}
 			return c
 		}
 	}
@@ -354,6 +385,11 @@ func (t *trans) expr(e ast.Expr) string {
 			}
 			return t.wrap(e, tv.Type, t.expr(x.Args[0]))
 		}
+		if id, ok := x.Fun.(*ast.Ident); ok && id.Name == "len" && len(x.Args) == 1 {
+			if a := t.arrName(x.Args[0]); a != "" {
+				return t.freeVar(a + "_len")
+			}
+		}
 		if c, _ := t.callKnown(x); c != "" {
 			return c
 		}
@@ -449,11 +485,19 @@ func (t *trans) assigned(list []ast.Stmt, out map[string]bool) {
 						if b, ok := t.isBuf(ix.X); ok {
 							out[b] = true
 						}
+						if a := t.arrName(ix.X); a != "" {
+							out[a+"_w"] = true
+						}
 					}
 				}
 			case *ast.IncDecStmt:
 				if id, ok := x.X.(*ast.Ident); ok {
 					out[id.Name] = true
+				}
+				if ix, ok := x.X.(*ast.IndexExpr); ok {
+					if a := t.arrName(ix.X); a != "" {
+						out[a+"_w"] = true
+					}
 				}
 			case *ast.CallExpr:
 				if len(x.Args) > 0 {
@@ -505,11 +549,14 @@ func (t *trans) stmts(list []ast.Stmt, at ast.Node) string {
 		if len(x.Results) == 0 {
 			return t.resultTuple(x)
 		}
-		if len(x.Results) != t.nres {
-			t.fail(x, "return with %d values in a function with %d results", len(x.Results), t.nres)
+		if len(x.Results) != t.nres+t.nSliceRes {
+			t.fail(x, "return with %d values in a function with %d results", len(x.Results), t.nres+t.nSliceRes)
 		}
 		var rs []string
 		for _, r := range x.Results {
+			if id, ok := r.(*ast.Ident); ok && t.slicePar[id.Name] {
+				continue // the slice itself: its write log is part of every result
+			}
 			rs = append(rs, t.expr(r))
 		}
 		return t.ret(rs)
@@ -541,12 +588,19 @@ func (t *trans) stmts(list []ast.Stmt, at ast.Node) string {
 		}
 		t.fail(x, "unsupported expression statement")
 	case *ast.ForStmt:
-		// for i := a; i < b; i++ { body }   (i and b not assigned in the body, no break/continue/return/goto)
+		// for i := a; i < b; i++ { body }  and  for i := a; i >= b; i-- { body }
+		// (i and the bound not assigned in the body, no break/continue/return/goto): a top-level structural
+		// recursion on the iteration count over the variables the body assigns
 		init, ok1 := x.Init.(*ast.AssignStmt)
 		cond, ok2 := x.Cond.(*ast.BinaryExpr)
 		post, ok3 := x.Post.(*ast.IncDecStmt)
-		if !ok1 || !ok2 || !ok3 || init.Tok != token.DEFINE || len(init.Lhs) != 1 || cond.Op != token.LSS || post.Tok != token.INC {
-			t.fail(x, "unsupported for statement (only `for i := a; i < b; i++`)")
+		if !ok1 || !ok2 || !ok3 || init.Tok != token.DEFINE || len(init.Lhs) != 1 {
+			t.fail(x, "unsupported for statement")
+		}
+		up := cond.Op == token.LSS && post.Tok == token.INC
+		down := cond.Op == token.GEQ && post.Tok == token.DEC
+		if !up && !down {
+			t.fail(x, "unsupported for statement (only `i < b; i++` and `i >= b; i--`)")
 		}
 		iv, okA := init.Lhs[0].(*ast.Ident)
 		ci, okB := cond.X.(*ast.Ident)
@@ -579,7 +633,7 @@ func (t *trans) stmts(list []ast.Stmt, at ast.Node) string {
 		if bad {
 			t.fail(x, "unsupported for statement (body leaves the loop, or assigns the loop variable or its bound)")
 		}
-		var state []string // Go names of the loop-carried variables, in a fixed order
+		var state []string // Go-level names of the loop-carried variables, in a fixed order
 		for n := range as {
 			if _, ok := t.lookup(n); ok {
 				state = append(state, n)
@@ -590,13 +644,21 @@ func (t *trans) stmts(list []ast.Stmt, at ast.Node) string {
 			return t.stmts(rest, at) // a loop without effect on the translated state
 		}
 		from, to := t.expr(init.Rhs[0]), t.expr(cond.Y)
-		loop, k, k1 := t.fresh("loop"), t.fresh("k"), t.fresh("k")
+		t.nloops++
+		loop := fmt.Sprintf("%s_loop%d", t.cname, t.nloops)
+		k, k1 := t.fresh("k"), t.fresh("k")
 		var outer []string
 		for _, n := range state {
 			c, _ := t.lookup(n)
 			outer = append(outer, c)
 		}
-		// inside the fix: fresh formal names for the loop variable and the state
+		// names visible at loop entry (candidates for capture)
+		visible := map[string]bool{}
+		for _, m := range t.scopes {
+			for _, c := range m {
+				visible[c] = true
+			}
+		}
 		t.push()
 		iF := t.define(iv.Name)
 		var formals []string
@@ -604,8 +666,15 @@ func (t *trans) stmts(list []ast.Stmt, at ast.Node) string {
 			formals = append(formals, t.assign(x, n))
 		}
 		ity := t.info.Defs[iv].Type()
-		// body with, as its fall-through, the recursive call on the updated state
 		next := t.wrap(iv, ity, "("+iF+" + 1)")
+		if down {
+			next = t.wrap(iv, ity, "("+iF+" - 1)")
+		}
+		isFormal := map[string]bool{iF: true, k: true, k1: true}
+		for _, f := range formals {
+			isFormal[f] = true
+		}
+		var captured []string
 		saveFall := t.fall
 		t.fall = func() string {
 			var cur []string
@@ -613,12 +682,43 @@ func (t *trans) stmts(list []ast.Stmt, at ast.Node) string {
 				c, _ := t.lookup(n)
 				cur = append(cur, c)
 			}
-			return "(" + loop + " " + k1 + " " + next + " " + strings.Join(cur, " ") + ")"
+			return "(" + loop + " \x05 " + k1 + " " + next + " " + strings.Join(cur, " ") + ")"
 		}
 		body := t.stmts(append([]ast.Stmt{}, x.Body.List...), x)
 		t.fall = saveFall
 		t.pop()
-		// after the loop the state variables get fresh names bound to the loop's result
+		// captured = names visible at entry, or free variables, that occur in the body
+		toks := strings.FieldsFunc(body, func(r rune) bool {
+			return !(r == '_' || r == '\'' || r >= '0' && r <= '9' || r >= 'a' && r <= 'z' || r >= 'A' && r <= 'Z')
+		})
+		seen := map[string]bool{}
+		for _, tk := range toks {
+			if seen[tk] || isFormal[tk] {
+				continue
+			}
+			if visible[tk] || t.freeSet[tk] {
+				seen[tk] = true
+				captured = append(captured, tk)
+			}
+		}
+		sort.Strings(captured)
+		capS := strings.Join(captured, " ")
+		body = strings.ReplaceAll(body, "\x05", capS)
+		var capB, formB []string
+		for _, c := range captured {
+			ty := t.ctype[c]
+			if t.fnVars[c] {
+				ty = "Z -> Z"
+			} else if ty == "" {
+				ty = "Z"
+			}
+			capB = append(capB, "("+c+" : "+ty+")")
+		}
+		for _, f := range formals {
+			formB = append(formB, "("+f+" : "+t.ctype[f]+")")
+		}
+		t.aux = append(t.aux, fmt.Sprintf("Fixpoint %s %s (%s : nat) (%s : Z) %s {struct %s} :=\n  match %s with\n  | O => %s\n  | S %s => %s\n  end.\n\n",
+			loop, strings.Join(capB, " "), k, iF, strings.Join(formB, " "), k, k, tuple(formals), k1, body))
 		var after []string
 		for _, n := range state {
 			after = append(after, t.assign(x, n))
@@ -627,8 +727,11 @@ func (t *trans) stmts(list []ast.Stmt, at ast.Node) string {
 		if len(after) > 1 {
 			pat = "'(" + strings.Join(after, ", ") + ")"
 		}
-		return fmt.Sprintf("let %s := (fix %s (%s : nat) (%s : Z) %s {struct %s} :=\n    match %s with\n    | O => %s\n    | S %s => %s\n    end) in\n  let %s := %s (Z.to_nat (%s - %s)) %s %s in\n  ",
-			loop, loop, k, iF, strings.Join(formals, " "), k, k, tuple(formals), k1, body, pat, loop, to, from, from, strings.Join(outer, " ")) + t.stmts(rest, at)
+		count := "(" + to + " - " + from + ")"
+		if down {
+			count = "(" + from + " - " + to + " + 1)"
+		}
+		return fmt.Sprintf("let %s := %s %s (Z.to_nat %s) %s %s in\n  ", pat, loop, capS, count, from, strings.Join(outer, " ")) + t.stmts(rest, at)
 	case *ast.BlockStmt:
 		t.push()
 		l := append(append([]ast.Stmt{}, x.List...), &popMarker{})
@@ -656,6 +759,18 @@ func (t *trans) stmts(list []ast.Stmt, at ast.Node) string {
 		}
 		return b.String() + t.stmts(rest, at)
 	case *ast.IncDecStmt:
+		if ix, ok := x.X.(*ast.IndexExpr); ok {
+			if a := t.arrName(ix.X); a != "" && t.arrSet[a] {
+				op := " + "
+				if x.Tok == token.DEC {
+					op = " - "
+				}
+				v := t.wrap(ix, t.info.Types[ix].Type, "("+t.expr(ix)+op+"1)")
+				idx := t.expr(ix.Index)
+				cur, _ := t.lookup(a + "_w")
+				return fmt.Sprintf("let %s := (%s ++ [(%s, %s)])%%list in\n  ", t.assign(x, a+"_w"), cur, idx, v) + t.stmts(rest, at)
+			}
+		}
 		id, ok := x.X.(*ast.Ident)
 		if !ok {
 			t.fail(x, "unsupported ++/-- target")
@@ -989,9 +1104,56 @@ func genFuncs(repo string) (out string, err error) {
 		var params []string
 		var bufInit bytes.Buffer
 		t.recvType = sp.recv
+		t.cname = cname
+		t.slicePar = map[string]bool{}
+		t.ctype, t.declared = map[string]string{}, map[string]bool{}
+		ast.Inspect(fd, func(n ast.Node) bool {
+			if id, ok := n.(*ast.Ident); ok {
+				if obj := p.info.Defs[id]; obj != nil {
+					if bt, ok := obj.Type().Underlying().(*types.Basic); ok && bt.Info()&types.IsBoolean != 0 {
+						t.declared[id.Name] = true
+					}
+				}
+			}
+			return true
+		})
+		// a slice parameter that is READ (x[i] outside an assignment target) is an array: entry contents as a
+		// function parameter plus a write log; a []byte parameter that is only written is a plain write log
+		readSlices := map[string]bool{}
+		{
+			targets := map[ast.Expr]bool{}
+			ast.Inspect(fd.Body, func(n ast.Node) bool {
+				if as, ok := n.(*ast.AssignStmt); ok && as.Tok == token.ASSIGN {
+					for _, l := range as.Lhs {
+						targets[l] = true
+					}
+				}
+				return true
+			})
+			ast.Inspect(fd.Body, func(n ast.Node) bool {
+				if ix, ok := n.(*ast.IndexExpr); ok && !targets[ix] {
+					if id, ok := ix.X.(*ast.Ident); ok {
+						readSlices[id.Name] = true
+					}
+				}
+				if c, ok := n.(*ast.CallExpr); ok {
+					if id, ok := c.Fun.(*ast.Ident); ok && id.Name == "len" && len(c.Args) == 1 {
+						if a, ok := c.Args[0].(*ast.Ident); ok {
+							readSlices[a.Name] = true
+						}
+					}
+				}
+				return true
+			})
+		}
 		addParam := func(n *ast.Ident, ty ast.Expr) {
 			tv := p.info.Types[ty]
 			if sl, ok := tv.Type.Underlying().(*types.Slice); ok && len(sp.locals) == 0 {
+				if _, _, isInt := intKind(sl.Elem()); isInt && readSlices[n.Name] {
+					t.slicePar[n.Name] = true
+					t.used[n.Name]++
+					return
+				}
 				if bt, ok := sl.Elem().Underlying().(*types.Basic); ok && bt.Kind() == types.Uint8 {
 					t.bufs = append(t.bufs, n.Name)
 					fmt.Fprintf(&bufInit, "let %s := (@nil (Z * Z)) in\n  ", t.define(n.Name))
@@ -1071,6 +1233,10 @@ func genFuncs(repo string) (out string, err error) {
 		if fd.Type.Results != nil {
 			for _, f := range fd.Type.Results.List {
 				tv := p.info.Types[f.Type]
+				if _, ok := tv.Type.Underlying().(*types.Slice); ok && len(f.Names) == 0 {
+					t.nSliceRes++
+					continue
+				}
 				ct, e := coqType(tv.Type)
 				if e != nil {
 					return "", fmt.Errorf("%s: %v", cname, e)
@@ -1111,6 +1277,13 @@ func genFuncs(repo string) (out string, err error) {
 						}
 					}
 				}
+			case *ast.IncDecStmt:
+				if ix, ok := x.X.(*ast.IndexExpr); ok {
+					if a := t.arrName(ix.X); a != "" && !t.arrSet[a] {
+						t.arrSet[a] = true
+						t.arrs = append(t.arrs, a)
+					}
+				}
 			}
 			return true
 		})
@@ -1133,6 +1306,9 @@ func genFuncs(repo string) (out string, err error) {
 		}
 		if t.panics {
 			rt = "gores (" + rt + ")"
+		}
+		for _, a := range t.aux {
+			fmt.Fprintf(&b, "(* %s, a loop of func %s *)\n%s", sp.dir, strings.TrimPrefix(sp.recv+"."+sp.name, "."), a)
 		}
 		fmt.Fprintf(&b, "(* %s, func %s *)\nDefinition %s %s : %s :=\n  %s.\n\n", sp.dir, strings.TrimPrefix(sp.recv+"."+sp.name, "."), cname, strings.Join(params, " "), rt, body)
 		if len(t.bufs) == 0 && len(t.arrs) == 0 && !t.panics && len(t.fnVars) == 0 {
